@@ -652,9 +652,68 @@ def oracle_queue(payload):
     return None
 
 
+
+def scen_race(rng, n):
+    """C19 / C05 at the pipeline level: inputs racing on different threads, one of them signalling a terminal"""
+    out = []
+    i = 0
+    def ts(k, evs):
+        return "(tsrc %d %s)" % (k, " ".join("(0 %s)" % e for e in evs))
+    A = ts(0, ["(n 1)", "(n 2)", "(n 3)"]); B = ts(1, ["(n 11)", "(e 5)"]); C = ts(2, ["(n 21)", "c"])
+    pipes = [
+        "(merge %s %s)" % (A, B), "(merge %s %s %s)" % (A, B, C), "(zip %s %s)" % (A, B), "(amb %s %s)" % (A, B),
+        "(take_until %s %s)" % (A, ts(1, ["(n 9)"])), "(skip_until %s %s)" % (ts(0, ["(n 1)", "(n 2)", "(e 5)"]), ts(1, ["(n 9)"])),
+        "(sample %s %s)" % (ts(0, ["(n 1)", "(n 2)", "c"]), ts(1, ["(n 9)", "(n 9)"])),
+        "(flat_map fm_just (merge %s %s))" % (A, B), "(map inc (merge %s %s))" % (A, B), "(take 2 (merge %s %s))" % (A, C),
+        "(observe_on %s)" % ts(0, ["(n 1)", "(n 2)", "(e 5)"]), "(observe_on (merge %s %s))" % (A, B),
+        "(observe_on (from_iter 1 2 3))", "(merge (observe_on (from_iter 1 2 3)) (observe_on (error 5)) (observe_on (empty)))",
+        "(concat %s %s)" % (ts(0, ["(n 1)", "c"]), B),
+    ]
+    for p in pipes:
+        out.append(("(conc C19-pipe-%d (pipe (sub %s (react))))" % (i, p), None)); i += 1
+        out.append(("(conc C19-pipe-%d (pipe (sub %s (react)) (unsub-after 0 0)))" % (i, p), None)); i += 1
+    for kind, init in (("plain", ""), ("behavior", " 0"), ("replay", ""), ("async", "")):
+        decl = "(subject a %s%s)" % (kind, init)
+        out.append(("(conc C19-pipe-%d (pipe %s (sub (ref a) (react)) (drive a (0 (n 1)) (0 (n 2)) (0 (n 3))) (drive a (0 c))))" % (i, decl), None)); i += 1
+        out.append(("(conc C19-pipe-%d (pipe %s (sub (map inc (ref a)) (react)) (drive a (0 (n 1)) (0 (n 2))) (drive a (0 (e 5))) (drive a (0 c))))" % (i, decl), None)); i += 1
+    return out
+
+
+def oracle_race(payload, info):
+    d = parse_pipe(payload)
+    if d is None:
+        return "malformed record"
+    recs = d["recs"]
+    for u in sorted({int(r[1:r.index(":")]) for tid, r, t in recs if re.match(r"s\d+:", r)}) or [0]:
+        starts = [(i, tid, r[len("s%d:" % u):]) for i, (tid, r, t) in enumerate(recs) if r.startswith("s%d:" % u)]
+        terms = [x for x in starts if x[2][0] in "ec"]
+        if len(terms) > 1:
+            return "two terminal callbacks started: %s" % " ".join(x[2] for x in starts)
+        if terms:
+            # index at which the terminal callback returned: the next `r<u>` record of the same thread
+            ti, ttid, _ = terms[0]
+            tret = next((i for i, (tid, r, t) in enumerate(recs) if i > ti and tid == ttid and r == "r%d" % u), None)
+            if tret is not None:
+                for i, tid, ev in starts:
+                    if i > tret:
+                        # a callback after the terminal returned: allowed only if its source call started before that return
+                        calls = [j for j, (t2, r2, _) in enumerate(recs) if t2 == tid and re.match(r"(x\d+|h\w+)!", r2) and j < i]
+                        if not calls or calls[-1] > tret:
+                            return "callback %s for an event that started to be delivered after the terminal callback returned" % ev
+        urets = [i for i, (tid, r, t) in enumerate(recs) if r == "u%d." % u]
+        if urets:
+            for i, tid, ev in starts:
+                if i > urets[0]:
+                    calls = [j for j, (t2, r2, _) in enumerate(recs) if t2 == tid and re.match(r"(x\d+|h\w+)!", r2) and j < i]
+                    if calls and calls[-1] > urets[0]:
+                        return "callback %s for an event the source started to emit after unsubscribe returned" % ev
+    return None
+
+
 CONC = {
     "C08": dict(model="queue", scen=scen_queue, oracle=oracle_queue, corr="Conc.Queue (lean/RxVerif/Conc/Queue.lean) vs src/schedulers/async_function_queue.rs, new_thread_scheduler.rs"),
-    "C19": dict(model="obs", scen=scen_obs, oracle=oracle_obs, corr="Conc.Observer (lean/RxVerif/Conc/Observer.lean) vs src/observer.rs + src/internals/function_wrapper.rs"),
+    "C19": dict(model="obs", scen=scen_obs, oracle=oracle_obs, corr="Conc.Observer (lean/RxVerif/Conc/Observer.lean) vs src/observer.rs + src/internals/function_wrapper.rs",
+                more=[dict(model=None, scen=scen_race, oracle=oracle_race, info=True)]),
     "C18": dict(model="tovec", scen=scen_tovec, oracle=oracle_tovec, corr="Conc.ToVec (lean/RxVerif/Conc/ToVec.lean) vs src/operators/to_vec.rs"),
     "C12": dict(model=None, scen=scen_subjects, oracle=oracle_subjects, corr="Conc.Subject / Conc.Replay / Conc.Behavior vs src/subjects/*.rs", info=True),
     "C09": dict(model=None, scen=scen_handoff, oracle=oracle_handoff, corr="Conc.Handoff vs src/operators/observe_on.rs, subscribe_on.rs", info=True),
@@ -733,10 +792,20 @@ def run_conc(prop, tier, seed, jobs, write_evidence, write_replay, load_known):
         scen = extra + scen
     iters = (5000 if thorough else 300) if cfg.get("model") else (1500 if thorough else 120)
     lines = run_scenarios(scen, seed, iters, "mixed", jobs)
+    extra_groups = []
+    for g in cfg.get("more", []):
+        gs = g["scen"](rng, 60 if thorough else 12)
+        ginfo = {x[0].split()[1]: x[1] for x in gs} if g.get("info") else {}
+        gs = [x[0] for x in gs] if g.get("info") else gs
+        glines = run_scenarios(gs, seed, 1500 if thorough else 120, "mixed", jobs)
+        extra_groups.append((g, gs, ginfo, glines))
+        lines = lines + glines
+        scen = scen + gs
     execs = [l for l in lines if l.count(" | ") >= 3]
     done = [l for l in lines if " | done " in l]
     total_schedules = sum(int(re.search(r"iterations=(\d+)", l).group(1)) for l in done)
-    co = cosim(cfg["model"], execs, jobs) if cfg.get("model") else {}
+    main_ids = {x.split()[1] for x in scen} - {x.split()[1] for g in extra_groups for x in g[1]}
+    co = cosim(cfg["model"], [l for l in execs if l.split(" | ")[0] in main_ids], jobs) if cfg.get("model") else {}
     by_id = {s.split()[1]: s for s in scen}
     oracle_fail, rejects, bad_status = [], [], []
     steps = 0
@@ -744,6 +813,12 @@ def run_conc(prop, tier, seed, jobs, write_evidence, write_replay, load_known):
         sid, meta, status, detail, payload = parse_exec(l)
         if status != "ok":
             bad_status.append((l, "execution ended with %s %s" % (status, detail)))
+            continue
+        grp = next((g for g in extra_groups if sid in {x.split()[1] for x in g[1]}), None)
+        if grp is not None:
+            msg = grp[0]["oracle"](payload, grp[2].get(sid)) if grp[0].get("info") else grp[0]["oracle"](payload)
+            if msg:
+                oracle_fail.append((l, msg))
             continue
         msg = cfg["oracle"](payload, info.get(sid)) if cfg.get("info") else cfg["oracle"](payload)
         if msg:
